@@ -21,7 +21,10 @@ MANIFEST = dict(
           "(ignoring ASCII case), no NUL bytes; binn encode/decode is taken as the identity on such documents (C14)"),
     technique="Lean 4 proof over executable model + differential correspondence (C harness vs compiled Lean driver) + python RFC 6902 oracle")
 MODULE = "IwModel.Props.C15"
-THEOREMS = []
+THEOREMS = ["IwModel.C15.parsed_wf", "IwModel.C15.klidx_inv", "IwModel.C15.klidx_inv_run", "IwModel.C15.klidx_inv_patch",
+            "IwModel.C15.klidx_check", "IwModel.C15.apply_rfc_partial", "IwModel.C15.idx_agree_small",
+            "IwModel.C15.binary_rfc_partial", "IwModel.C15.binn_atomic", "IwModel.C15.binary_error_reported",
+            "IwModel.C15.missing_target_reported"]
 
 UNSPEC = {"addcreate-unspecified", "swap-overlap", "swap-unspecified", "increment-overflow", "remove-root", "malformed-op", "unknown-op"}
 BIN = ("jbl", "json")
